@@ -1410,7 +1410,8 @@ class TexArgs(list):
         """
         item = super().pop(i)
         j = self.all.index(item)
-        return self.all.pop(j)
+        self.all.pop(j)
+        return item
 
     def reverse(self):
         r"""Reverse both the list and the proxy `.all`.
